@@ -10,12 +10,17 @@
    the semantic readings use the Section hypotheses `checker_sound_complete` / `checker_raises_ptc_only`
    about `assert_matches1 cfg ctx` and become closed statements about the model of the whole library by one
    application to the C01/C02 lemmas.
-     * "the body does not run and the call raises"  holds for ALL calls CPython can bind (C03_args_guard),
+     * "the body does not run and the call raises" (`C03_args_guard_partial`) is proved for every callable whose signature has no
+       positional-only parameter (`sig_ok`; refuted with one: `C03_posonly_name_as_keyword_refuted`) and every call whose record
+       of receivers is consistent (`star_offset_ok`, a boolean arithmetic condition that every real call satisfies as far as the
+       harness can make calls; without it the model statement is false for an impossible receiver record:
+       `C03_inconsistent_receiver_refuted`; on the K10 call `self=...` it is false while the conclusion still holds there:
+       `C03_self_by_keyword_refuted` shows (Raise IndexError, [])),
      * "what is raised is PedanticTypeCheckException" is FALSE in five regions where another exception
        escapes first - IndexError (self by keyword, '@staticmethod' in the text) or PedanticCallWithArgsException
-       (a variadic parameter not spelled "star args", receiver not called self, '@pedantic' in the text of a class method) - and a value yielded in answer to
-       throw() is not checked at all (`*_refuted`, each reproduced on the real code as a KNOWN-FINDING); proved
-       outside them (`C03_args_guard_exact_partial`, `C03_generator_results_guard_partial`).
+       (a variadic parameter not spelled "star args", receiver not called self, '@pedantic' in the text of a class method) - and a
+       value yielded in answer to throw() is not checked at all (`*_refuted`, each reproduced on the real code as a KNOWN-FINDING);
+       proved outside them (`C03_args_guard_exact_partial`, `C03_generator_results_guard_partial`).
    `run` is the model of coq/Model/Pedantic.v, tied to the source by translator/t_pedantic.py
    (Gen/Pedantic.v: `C03_cfg_good`; AST locks of the hand-modelled functions: obligation locks:hand-modelled-functions of bin/check) and the correspondence of bin/check C03.   *)
 From Coq Require Import List Arith Bool String ZArith Lia.
@@ -36,28 +41,30 @@ Print Assumptions C03_cfg_good.
    journal of the body is empty.  `star_offset_ok` (a boolean on fn and call) says that the receiver and the positional
    values the first checking pass skips in front of *args are not more than CPython binds to named parameters - the
    arithmetic of FunctionCall._num_of_args_bound_to_named_params; it holds for every call the harness can make. *)
-Theorem C03_args_guard_relative : forall pc check consumes f c bd b a v,
+Theorem C03_args_guard_relative_partial : forall pc check consumes f c bd b a v,
   pc_good pc = true -> sig_ok f = true -> star_offset_ok f c = true -> twin_binding f c = Ok b ->
   In (Some a, v) (supplied_of f c b) -> rejected check a v ->
   snd (run pc check consumes f c bd) = [] /\ exists e, fst (run pc check consumes f c bd) = Raise e.
 Proof. intros. eapply args_guard; eassumption. Qed.
-Print Assumptions C03_args_guard_relative.
+Print Assumptions C03_args_guard_relative_partial.
 
+(* `model_binding pc f c` is the binding with which run invokes the body: the hypothesis only speaks about what the body does
+   on THAT binding *)
 Theorem C03_result_guard_relative : forall pc check consumes f c bd a,
   pc_good pc = true -> f_ret f = Some a ->
-  (forall b cons v, bd b cons = Ok v -> rejected check a v) ->
+  (forall b cons v, model_binding pc f c = Ok b -> bd b cons = Ok v -> rejected check a v) ->
   exists e, fst (run pc check consumes f c bd) = Raise e.
 Proof. intros. eapply result_guard; eassumption. Qed.
 Print Assumptions C03_result_guard_relative.
 
 (* ---------------- generator functions ---------------- *)
 (* calling the generator function: a rejected supplied value => no generator object, nothing ran *)
-Theorem C03_generator_call_guard_relative : forall pc check consumes f c b a v,
+Theorem C03_generator_call_guard_relative_partial : forall pc check consumes f c b a v,
   pc_good pc = true -> sig_ok f = true -> star_offset_ok f c = true -> twin_binding f c = Ok b ->
   In (Some a, v) (supplied_of f c b) -> rejected check a v ->
   snd (run_gen pc check consumes f c) = [] /\ exists e, fst (run_gen pc check consumes f c) = Raise e.
 Proof. intros. eapply args_guard_gen; eassumption. Qed.
-Print Assumptions C03_generator_call_guard_relative.
+Print Assumptions C03_generator_call_guard_relative_partial.
 
 (* iterating: for EVERY generator body, every yield / send / return type and every sequence of next / send / close
    operations (any length; induction on the sequence): whatever next() / send() hands to the caller, and the
@@ -108,7 +115,7 @@ Section Relative.
 
   (* C03, first sentence: for every callable whose signature CPython can build (sig_ok), every call, every
      body: a non-conforming supplied value => the call raises, the body has not run *)
-  Theorem C03_args_guard : forall pc consumes f c bd,
+  Theorem C03_args_guard_partial : forall pc consumes f c bd,
     pc_good pc = true -> sig_ok f = true -> star_offset_ok f c = true ->
     c03_supplied_bad ctx f c = true ->
     snd (run pc check consumes f c bd) = [] /\ exists e, fst (run pc check consumes f c bd) = Raise e.
@@ -158,15 +165,16 @@ Section Relative.
     eapply setter_guard; try eassumption. congruence.
   Qed.
 
-  (* C03, second sentence: a non-conforming produced value never reaches the caller *)
+  (* C03, second sentence: a non-conforming produced value never reaches the caller (the hypothesis speaks about the binding the
+     body is actually invoked with) *)
   Theorem C03_result_guard : forall pc consumes f c bd,
     pc_good pc = true ->
-    (forall b cons v, bd b cons = Ok v -> c03_result_bad ctx f v = true) ->
+    (forall b cons v, model_binding pc f c = Ok b -> bd b cons = Ok v -> c03_result_bad ctx f v = true) ->
     exists e, fst (run pc check consumes f c bd) = Raise e.
   Proof.
     intros pc consumes f c bd G Hbd.
     destruct (f_ret f) as [a|] eqn:Er.
-    - eapply result_guard; [assumption|exact Er|]. intros b cons v Ev. specialize (Hbd b cons v Ev).
+    - eapply result_guard; [assumption|exact Er|]. intros b cons v Eb Ev. specialize (Hbd b cons v Eb Ev).
       unfold c03_result_bad in Hbd. rewrite Er in Hbd. destruct (bad_rejected _ _ Hbd) as [a' [E [_ Hrej]]]. now inversion E; subst.
     - (* no return annotation: nothing conforms or not; the call raises anyway *)
       rewrite (run_is_ref pc check consumes G). unfold run_ref.
@@ -177,21 +185,25 @@ Section Relative.
       simpl. unfold ret_value. rewrite Er. eauto.
   Qed.
 
-  (* ... as PedanticTypeCheckException, whenever the body ran *)
-  Theorem C03_result_guard_exact_partial : forall pc consumes f c bd a,
-    pc_good pc = true -> f_ret f = Some a -> supported ctx a = true ->
-    (forall b cons, exists v, bd b cons = Ok v /\ conforms ctx a v = MustNot) ->
+  (* ... exactly: if the body ran, it ran once on that binding; an exception of the body reaches the caller, a non-conforming
+     value is replaced by PedanticTypeCheckException.  Guard: '@staticmethod' in the text of a module-level function (K2). *)
+  Theorem C03_result_guard_exact_partial : forall pc consumes f c bd a b,
+    pc_good pc = true -> f_ret f = Some a -> supported ctx a = true -> model_binding pc f c = Ok b ->
+    (forall cons v, bd b cons = Ok v -> conforms ctx a v = MustNot) ->
     (forall inst, instance_of f c = Ok inst -> clazz_probe f c inst = Ok tt) ->
     snd (run pc check consumes f c bd) <> [] ->
-    fst (run pc check consumes f c bd) = Raise PTypeCheckC.
+    exists cons, snd (run pc check consumes f c bd) = [(b, cons)] /\
+      match bd b cons with
+      | Ok _ => fst (run pc check consumes f c bd) = Raise PTypeCheckC
+      | Raise e => fst (run pc check consumes f c bd) = Raise e
+      end.
   Proof.
-    intros pc consumes f c bd a G Hret Hsup Hbd Hprobe. eapply result_guard_exact; try eassumption.
-    - intros b cons. destruct (Hbd b cons) as [v [Ev Hm]]. exists v. split; [assumption|].
-      intros tv. exists PTypeCheckC. now apply checker_sound_complete.
+    intros pc consumes f c bd a b G Hret Hsup Hb Hbd Hprobe. eapply result_guard_exact; try eassumption.
+    - intros cons v Ev tv. exists PTypeCheckC. apply checker_sound_complete; [assumption|]. eapply Hbd; eassumption.
     - intros v tv e. now apply checker_raises_ptc_only.
   Qed.
 End Relative.
-Print Assumptions C03_args_guard.
+Print Assumptions C03_args_guard_partial.
 Print Assumptions C03_args_guard_exact_partial.
 Print Assumptions C03_setter_guard_partial.
 Print Assumptions C03_result_guard.
@@ -200,14 +212,14 @@ Print Assumptions C03_result_guard_exact_partial.
 (* ---------------- closed: the model of the whole library ---------------- *)
 (* the hypotheses discharged by the C01 / C02 theorems (Proofs/CheckerTop.v via Proofs/PedanticChecker.v): `run1` is the
    call protocol over the REGENERATED pedantic_cfg with the checker model over the REGENERATED checker tables *)
-Theorem C03_args_guard_closed : forall ctx f c bd,
+Theorem C03_args_guard_closed_partial : forall ctx f c bd,
   sig_ok f = true -> star_offset_ok f c = true -> c03_supplied_bad ctx f c = true ->
   snd (run1 ctx f c bd) = [] /\ exists e, fst (run1 ctx f c bd) = Raise e.
 Proof.
   intros ctx f c bd Hs Ho H. unfold run1.
-  exact (C03_args_guard gcfg ctx (checker1_rejects ctx) _ _ f c bd C03_cfg_good Hs Ho H).
+  exact (C03_args_guard_partial gcfg ctx (checker1_rejects ctx) _ _ f c bd C03_cfg_good Hs Ho H).
 Qed.
-Print Assumptions C03_args_guard_closed.
+Print Assumptions C03_args_guard_closed_partial.
 
 Theorem C03_args_guard_exact_closed_partial : forall ctx f c bd,
   sig_ok f = true -> star_offset_ok f c = true -> c03_supplied_bad ctx f c = true ->
@@ -223,12 +235,96 @@ Qed.
 Print Assumptions C03_args_guard_exact_closed_partial.
 
 Theorem C03_result_guard_closed : forall ctx f c bd,
-  (forall b cons v, bd b cons = Ok v -> c03_result_bad ctx f v = true) ->
+  (forall b cons v, model_binding Gen.Pedantic.pedantic_cfg f c = Ok b -> bd b cons = Ok v -> c03_result_bad ctx f v = true) ->
   exists e, fst (run1 ctx f c bd) = Raise e.
 Proof.
   intros ctx f c bd H. unfold run1. exact (C03_result_guard gcfg ctx (checker1_rejects ctx) _ _ f c bd C03_cfg_good H).
 Qed.
 Print Assumptions C03_result_guard_closed.
+
+Theorem C03_result_guard_exact_closed_partial : forall ctx f c bd a b,
+  f_ret f = Some a -> supported ctx a = true -> model_binding Gen.Pedantic.pedantic_cfg f c = Ok b ->
+  (forall cons v, bd b cons = Ok v -> conforms ctx a v = MustNot) ->
+  (forall inst, instance_of f c = Ok inst -> clazz_probe f c inst = Ok tt) ->
+  snd (run1 ctx f c bd) <> [] ->
+  exists cons, snd (run1 ctx f c bd) = [(b, cons)] /\
+    match bd b cons with
+    | Ok _ => fst (run1 ctx f c bd) = Raise PTypeCheckC
+    | Raise e => fst (run1 ctx f c bd) = Raise e
+    end.
+Proof.
+  intros ctx f c bd a b Hr Hs Hb Hbd Hp. unfold run1.
+  exact (C03_result_guard_exact_partial gcfg ctx (checker1_rejects ctx) (checker1_raises_ptc_only ctx) _ _ f c bd a b C03_cfg_good Hr Hs Hb Hbd Hp).
+Qed.
+Print Assumptions C03_result_guard_exact_closed_partial.
+
+Theorem C03_setter_guard_closed_partial : forall ctx f c bd p r,
+  setter_value_bad ctx f c = true ->
+  t_setter (f_text f) = true -> is_instance_method f = true ->
+  declared f = [p] -> params_without_self f = declared f -> is_star p = false -> p_default p = None ->
+  c_recv c = [r] -> kw_get (p_name p) (c_kwargs c) = None ->
+  snd (run1 ctx f c bd) = [] /\ exists e, fst (run1 ctx f c bd) = Raise e.
+Proof.
+  intros ctx f c bd p r H. unfold run1.
+  exact (C03_setter_guard_partial gcfg ctx (checker1_rejects ctx) _ _ f c bd p r C03_cfg_good H).
+Qed.
+Print Assumptions C03_setter_guard_closed_partial.
+
+(* ---------------- generator functions, closed ---------------- *)
+(* what the call of a generator function returns: a wrapper whose yield / send / return types are read off the return annotation
+   (typing.Generator[Y, S, R] or typing.Iterator[Y] / Iterable[Y] with S = R = None); these are the (yt, st, rt) of `w_run` *)
+Theorem C03_generator_types : forall pc check consumes f c g j,
+  pc_good pc = true -> run_gen pc check consumes f c = (Ok g, j) ->
+  j = [] /\ exists a y s r, f_ret f = Some a /\ g_types g = Some (y, s, r) /\
+    exists o, In o [TGenerator; TIterable; TIterator] /\
+      ((a = AGeneric SpTyping o [y] /\ s = ANone /\ r = ANone) \/ a = AGeneric SpTyping o [y; s; r]).
+Proof.
+  intros pc check consumes f c g j G H. destruct (run_gen_types pc check consumes G f c g j H) as [Hj [a [[[y s] r] [Hr [Ht Hg]]]]].
+  split; [assumption|]. exists a, y, s, r. repeat split; try assumption. exact (gen_types_shape pc G a y s r Ht).
+Qed.
+Print Assumptions C03_generator_types.
+
+(* a yielded value that does not conform to the yield type: next() / send() raise PedanticTypeCheckException instead of handing it
+   to the caller (GeneratorWrapper passes no context: conformance without forward references) *)
+Theorem C03_generator_bad_yield_closed : forall yt st rt body w v y g',
+  supported noctx yt = true -> conforms noctx yt y = MustNot ->
+  inner_send body (w_inner w) v = (IYield y, g') ->
+  (w_init w = true -> exists tv', gen_check st v (w_tv w) = (Ok tt, tv')) ->
+  fst (w_send gen_check yt st rt body w v) = WRaise PTypeCheckC.
+Proof.
+  intros yt st rt body w v y g' Hs Hm Hi Hpre. eapply w_send_bad_yield; [exact Hi|exact Hpre|].
+  intros tv. exact (checker1_rejects noctx yt y tv Hs Hm).
+Qed.
+Print Assumptions C03_generator_bad_yield_closed.
+
+(* the results guard against the conformance relation: whatever next() / send() hand to the caller is not a non-conforming value *)
+Definition res_conforms (yt rt : ann) (r : wres) : Prop :=
+  match r with
+  | WValue y => supported noctx yt = true -> conforms noctx yt y <> MustNot
+  | WStop v => supported noctx rt = true -> conforms noctx rt v <> MustNot
+  | _ => True
+  end.
+Theorem C03_generator_results_guard_closed_partial : forall yt st rt body ops w rs w',
+  forallb no_throw ops = true ->
+  w_run gen_check yt st rt body w ops = (rs, w') -> Forall (res_conforms yt rt) rs.
+Proof.
+  intros yt st rt body ops w rs w' Hn H.
+  eapply Forall_impl; [|eapply gen_results_guard; eassumption].
+  intros [y|v|e|] Hr; simpl in *; try exact I; intros Hs; destruct Hr as [tv [tv' E]]; eapply checker1_sound; eassumption.
+Qed.
+Print Assumptions C03_generator_results_guard_closed_partial.
+
+Definition resume_conforms (st : ann) (r : resume) : Prop :=
+  match r with RSend v => (supported noctx st = true -> conforms noctx st v <> MustNot) \/ v = VNone | RThrow _ => True end.
+Theorem C03_generator_sends_guard_closed : forall yt st rt body ops rs w',
+  w_run gen_check yt st rt body wstate0 ops = (rs, w') -> Forall (resume_conforms st) (g_hist (w_inner w')).
+Proof.
+  intros yt st rt body ops rs w' H.
+  eapply Forall_impl; [|eapply gen_sends_guard; [apply winv0|eassumption]].
+  intros [v|e] Hr; simpl in *; [|exact I]. destruct Hr as [[tv [tv' E]]|Hn]; [left|now right].
+  intros Hs. eapply checker1_sound; eassumption.
+Qed.
+Print Assumptions C03_generator_sends_guard_closed.
 
 (* ---------------- refutations of "the exception is PedanticTypeCheckException" (known findings) ---------------- *)
 (* K10: K.m(self=k, a='x'): IndexError (self.args[0]) - the body does not run, but no Pedantic exception *)
@@ -272,6 +368,26 @@ Proof.
   repeat split; reflexivity.
 Qed.
 Print Assumptions C03_pedantic_text_refuted.
+
+(* a positional-only parameter whose NAME is used as a key of **kwargs: the first pass takes that keyword for the parameter, the
+   (non-conforming) default that CPython really binds is never checked and the body runs: why `sig_ok` excludes positional-only *)
+Theorem C03_posonly_name_as_keyword_refuted : exists f c bd,
+  star_offset_ok f c = true /\ c03_args_bad ctx0 f c = true /\ fst (run1 ctx0 f c bd) = Ok (VInt 1%Z) /\ snd (run1 ctx0 f c bd) <> [].
+Proof.
+  exists (func "f" [par a_ PosOnly AInt (Some vx); par 8 VarKw AAny None] plain_text), (kwcall [] [(a_, VInt 1%Z)]), (returns (VInt 1%Z)).
+  repeat split; try reflexivity. vm_compute. discriminate.
+Qed.
+Print Assumptions C03_posonly_name_as_keyword_refuted.
+
+(* why `star_offset_ok` is a hypothesis: for a receiver record that no Python call produces (the wrapper of a method gets no
+   receiver while the undecorated method gets one) the first pass would skip a *args element *)
+Theorem C03_inconsistent_receiver_refuted : exists f c bd,
+  sig_ok f = true /\ star_offset_ok f c = false /\ c03_args_bad ctx0 f c = true /\ snd (run1 ctx0 f c bd) <> [].
+Proof.
+  exists m_varargs, {| c_recv := []; c_twin_recv := [k_inst]; c_args := [vx]; c_kwargs := [] |}, (returns (VInt 1%Z)).
+  repeat split; try reflexivity. vm_compute. discriminate.
+Qed.
+Print Assumptions C03_inconsistent_receiver_refuted.
 
 (* ---------------- the hypotheses are satisfiable / the model really rejects ---------------- *)
 Example C03_guards_satisfiable :
